@@ -218,6 +218,52 @@ fn c06_project(ctx: &mut Ctx, b: &Built, r: &mut StdRng) {
             std::fs::write(&path, &orig).unwrap();
         }
     }
+    // 2b. only a top-level file is named: its .txtpp dependencies must still be verified
+    for top in model::sources(&b.case.files) {
+        let closure = model::evaluate(&b.case.files, &b.root.to_string_lossy(), b.case.trailing, &[top.clone()]);
+        let top_out = model::output_of(&top).unwrap();
+        let deps: Vec<String> = closure.built.outputs.keys().filter(|o| **o != top_out).cloned().collect();
+        if deps.is_empty() {
+            continue;
+        }
+        let mut sub = b.case.clone();
+        sub.inputs = vec![if r.gen_bool(0.5) { top.clone() } else { top_out.clone() }];
+        let v0 = run_at(&b.root, &sub, Mode::Verify, b.case.trailing);
+        ctx.evals += 1;
+        if !v0.verdict.is_ok() {
+            ctx.violation("C06:rejects-up-to-date", format!("verify of {:?} alone fails on an up-to-date tree: {}", sub.inputs, v0.verdict.short()), case_json(b, json!({"step": "dependency-selection", "inputs": sub.inputs})));
+            break;
+        }
+        for o in &deps {
+            let orig = b.good.files[o].bytes.clone();
+            let variants = tamper_variants(&orig);
+            for k in 0..3.min(variants.len()) {
+                let (name, bytes) = variants[(r.gen_range(0..variants.len()) + k) % variants.len()].clone();
+                let path = b.root.join(o);
+                match &bytes {
+                    Some(x) => std::fs::write(&path, x).unwrap(),
+                    None => {
+                        let _ = std::fs::remove_file(&path);
+                    }
+                }
+                set_sentinels(&b.root);
+                let st = snap(&b.root);
+                let v = run_at(&b.root, &sub, Mode::Verify, b.case.trailing);
+                ctx.evals += 1;
+                let sa = snap(&b.root);
+                ctx.distinct.insert(phash ^ crate::util::hash_str(&format!("dep|{top}|{o}|{name}")));
+                ctx.count("dependency_only_tamperings", 1);
+                if v.verdict.is_ok() {
+                    ctx.violation(format!("C06:accepts-tampered-dependency:{name}"), format!("verify of {:?} passed although the output {o} of its .txtpp dependency was tampered ({name})", sub.inputs), case_json(b, json!({"step": "dependency-selection", "inputs": sub.inputs, "output": o, "tamper": name})));
+                }
+                if st.files.get(o) != sa.files.get(o) {
+                    ctx.violation("C06:verify-modified-output", format!("verify of {:?} changed the dependency output {o} ({name})", sub.inputs), case_json(b, json!({"step": "dependency-selection", "inputs": sub.inputs, "output": o, "tamper": name})));
+                }
+                std::fs::write(&path, &orig).unwrap();
+            }
+        }
+        break;
+    }
     let v = run_at(&b.root, &b.case, Mode::Verify, b.case.trailing);
     ctx.evals += 1;
     if !v.verdict.is_ok() {
@@ -312,7 +358,7 @@ fn c06_strace(ctx: &mut Ctx, b: &Built, tampered: bool) {
 
 fn run_c06(ctx: &mut Ctx) {
     let mut r = StdRng::seed_from_u64(ctx.shard_seed());
-    let n = ctx.tier.pick(12, 600);
+    let n = ctx.tier.pick(40, 600);
     let opts = GenOpts { error_pct: 0, ..GenOpts::default() };
     for i in 0..n {
         if !ctx.time_left() || ctx.violations.len() > 20 {
@@ -529,7 +575,7 @@ fn c07_make(ctx: &mut Ctx, r: &mut StdRng, mlog: &Path, erroneous: bool) -> Proj
 
 fn run_c07(ctx: &mut Ctx) {
     let mut r = StdRng::seed_from_u64(ctx.shard_seed());
-    let n = ctx.tier.pick(60, 2500);
+    let n = ctx.tier.pick(400, 4000);
     let logs = ctx.scratch.root.join("logs");
     let _ = std::fs::create_dir_all(&logs);
     let mlog = logs.join("clean.log");
@@ -1011,7 +1057,7 @@ fn c09_cli(ctx: &mut Ctx, b: &Built) {
 
 fn run_c09(ctx: &mut Ctx) {
     let mut r = StdRng::seed_from_u64(ctx.shard_seed());
-    let n = ctx.tier.pick(10, 300);
+    let n = ctx.tier.pick(25, 400);
     let opts = GenOpts { error_pct: 0, ..GenOpts::default() };
     for i in 0..n {
         if !ctx.time_left() || ctx.violations.len() > 20 {
@@ -1176,6 +1222,17 @@ fn c10_case(ctx: &mut Ctx, files: &Files, trailing: bool, mode: Mode, inputs: Ve
         let _ = run_at(&root, &case, Mode::Build, trailing);
         ctx.evals += 1;
     }
+    if prebuild && threads % 2 == 0 {
+        // a stale output makes verify fail (and needed rewrite exactly that file)
+        for s in model::sources(files) {
+            let o = root.join(model::output_of(&s).unwrap());
+            if let Ok(mut b) = std::fs::read(&o) {
+                b.extend_from_slice(b"stale tail\n");
+                let _ = std::fs::write(&o, b);
+                break;
+            }
+        }
+    }
     case.inputs = inputs.clone();
     case.recursive = recursive;
     case.mode = mode.clone();
@@ -1261,7 +1318,7 @@ fn c10_strace(ctx: &mut Ctx, files: &Files, trailing: bool, mode: Mode) {
 
 fn run_c10(ctx: &mut Ctx) {
     let mut r = StdRng::seed_from_u64(ctx.shard_seed());
-    let n = ctx.tier.pick(60, 2500);
+    let n = ctx.tier.pick(300, 4000);
     for i in 0..n {
         if !ctx.time_left() || ctx.violations.len() > 20 {
             break;
